@@ -1995,6 +1995,43 @@ class ServerSuite(SystemSuite):
                 return f"row {r} begun at {float(t):.3f}s = {bells} is not a complete row of the {n} bells of the tower"
         return None
 
+    def oracle_C02(self, case, out):
+        """method definitions delivered as server JSON: once the touch has started, its rows are those the notation of the
+        definition in force ("x1" on its stage) gives from rounds, covers behind"""
+        if "trace" not in out:
+            return None
+        orc = case["oracle"]
+        n = orc["n"]
+        sel = [(Fraction(t), s) for t, s in orc["selections"]]
+        all_rows = rows_rung(out)
+        looks = [Fraction(tc["look"]) for tc in orc["touches"]]
+        if any(e[0] == "setting" for _t, e in case["events"]):
+            return None            # (up-down-in / stop-at-rounds may have been switched: the start is then C06's business)
+        current = queued = None
+        for k, tc in enumerate(orc["touches"]):
+            look = looks[k]
+            nxt = looks[k + 1] if k + 1 < len(looks) else Fraction(10 ** 9)
+            rows = [b for (r, b, t) in all_rows if look <= t < nxt and len(b) == n]
+            pending = [st for (t, st) in sel if t < look and (k == 0 or t >= looks[k - 1])]
+            if pending:
+                queued = pending[-1]
+            want = queued if queued is not None else current
+            if want is None or want > n:
+                continue
+            queued, current = None, want
+            row = list(range(1, want + 1))
+            for i, got in enumerate(rows[2:]):
+                src = gens.textbook_change(want, [] if i % 2 == 0 else [1])
+                if src is None:
+                    break
+                row = gens.apply_change(src, row)
+                if row == list(range(1, want + 1)):
+                    break              # rounds: stop-at-rounds ends the touch here
+                if got != row + list(range(want + 1, n + 1)):
+                    return (f"touch {k}: method row {i + 1} is {got}; the JSON definition in force (notation 'x1', stage {want}) "
+                            f"gives {row + list(range(want + 1, n + 1))}")
+        return None
+
     def oracle_C19(self, case, out):
         if "trace" not in out:
             return None
